@@ -5,6 +5,8 @@ import QlibcModel.Generated.LockWl
 import QlibcModel.Generated.LockAtomic
 import QlibcModel.Conc.AtomicLin
 import QlibcModel.Generated.MutexMacros
+import QlibcModel.Generated.MutexTrees
+import QlibcModel.Conc.MacroModel
 import QlibcModel.Conc.Mutex
 import QlibcModel.Shapes.Tree
 import QlibcModel.Shapes.Hashtbl
@@ -103,9 +105,61 @@ theorem certified_call_is_wellLocked_op {σ L : Type} (name : String) (ph : List
         op.post = post.map sem ∧ (mid = [] ∨ ∃ m, mid = .lock :: m ∧ insideOk 1 m = true) :=
   atomic_call_is_wellLocked_op (wl_all (name, c) hscope) (atomic_all (name, ph, c) hat) sem hsem p hk
 
-/-- the Q_MUTEX_* macros of the CURRENT source (token lists regenerated by translator/mutexmacros.py
-    on every run) are the ones Conc/Mutex.lean transcribes; a changed macro breaks this obligation -/
-theorem macro_skeleton_as_modelled : Generated.mutexMacros = Qlibc.Conc.transcribedMacros := by decide +kernel
+/-- token-level fingerprint of Q_MUTEX_NEW, Q_MUTEX_DESTROY and MAX_MUTEX_LOCK_WAIT of the CURRENT source
+    (regenerated by translator/mutexmacros.py on every run); ENTER and LEAVE are tied more precisely, as
+    statement trees, by `macro_tree_as_modelled` below (so that renaming a macro-local variable is fine) -/
+theorem macro_skeleton_as_modelled :
+    Generated.mutexMacros.filter (fun x => x.1 != "Q_MUTEX_ENTER(m)" && x.1 != "Q_MUTEX_LEAVE(m)") =
+    Qlibc.Conc.transcribedMacros.filter (fun x => x.1 != "Q_MUTEX_ENTER(m)" && x.1 != "Q_MUTEX_LEAVE(m)") := by
+  decide +kernel
+
+/-! ### the Q_MUTEX_* macros as statement trees (K-gen: Generated/MutexTrees.lean, clang AST of the
+    expanded macros of the CURRENT source; macro-local names abstracted)
+
+The semantic theorems of Conc/MacroModel.lean are about `enterModel` / `leaveModel`; the first
+obligation says the current macros ARE these trees, the following ones transfer the theorems to the
+extracted trees and give cheap syntactic certificates that say WHAT changed when it fails. -/
+
+/-- the expanded macros of the current source are the modelled trees (a renamed local passes; an
+    owner fast path, a second trylock, a timedlock, an assignment of the unlock result do not) -/
+theorem macro_tree_as_modelled : Generated.enterTree = enterModel ∧ Generated.leaveTree = leaveModel := by
+  decide +kernel
+
+/-- (i)+(iii) for the EXTRACTED `Q_MUTEX_ENTER`: for every behaviour of the other threads (`env`, one
+    move before each access to shared state) every terminating execution ends normally with the mutex
+    held by the caller one level deeper, after exactly one successful acquisition, errno unchanged -/
+theorem enter_returns_holding (t fuel : Nat) (s s' : MSt) (o : Outcome) (m : QMutex)
+    (hm : s.mx = some m) (henv : EnvOk t s.env) (h : exec t fuel Generated.enterTree s = some (o, s')) :
+    o = .normal ∧ ∃ m', s'.mx = some m' ∧ m'.depthOf t = m.depthOf t + 1 ∧ m'.holder = some t ∧
+      s'.nAcq = s.nAcq + 1 ∧ s'.errno = s.errno := by
+  rw [macro_tree_as_modelled.1] at h
+  exact enter_returns_holding_model t fuel s s' o m hm henv h
+
+/-- (ii) for the EXTRACTED `Q_MUTEX_LEAVE`: exactly one `pthread_mutex_unlock`, nothing else observable
+    (errno, the caller's locals, the acquisition count) changes -/
+theorem leave_unlocks_once (t fuel : Nat) (s s' : MSt) (o : Outcome) (m : QMutex)
+    (hm : s.mx = some m) (henv : EnvOk t s.env) (h : exec t fuel Generated.leaveTree s = some (o, s')) :
+    o = .normal ∧ s'.nUnlock = s.nUnlock + 1 ∧ s'.errno = s.errno ∧ s'.vars = s.vars ∧ s'.nAcq = s.nAcq ∧
+      ∃ m1, m1.depthOf t = m.depthOf t ∧ (m1.holder = some t ↔ m.holder = some t) ∧ s'.mx = some (punlock t m1) := by
+  rw [macro_tree_as_modelled.2] at h
+  exact leave_unlocks_once_model t fuel s s' o m hm henv h
+
+/-- syntactic certificates on the extracted trees (diagnosis): LEAVE has exactly one unlock call on its
+    path and writes nothing but `count`; ENTER has one acquisition site (the trylock of the polling
+    loop), one unlock site (the forced LEAVE), one `count++`, and writes nothing but its locals,
+    `count` and `owner` -/
+theorem macro_tree_shape :
+    Generated.leaveTree.callRange isUnlock = some (1, 1) ∧ Generated.leaveTree.foreignWrites = 0 ∧
+    Generated.leaveTree.countCalls isAcquire = 0 ∧
+    Generated.enterTree.countCalls isAcquire = 1 ∧ Generated.enterTree.countCalls isUnlock = 1 ∧
+    Generated.enterTree.countIncs = 1 ∧ Generated.enterTree.foreignWrites = 0 := by
+  decide +kernel
+
+/-- every `Q_MUTEX_NEW` call site of the library asks for a RECURSIVE mutex (the nested
+    lock(); locking call; unlock() idiom and qvector addlast → addat → resize depend on it) -/
+theorem all_container_mutexes_recursive :
+    Generated.mutexNewSites.all (fun x => x.2.2 == "true") = true ∧ 5 ≤ Generated.mutexNewSites.length := by
+  decide +kernel
 
 /- non-vacuity: the scope is not empty; a two-thread program of well-locked counter increments is an
    instance of the generic theorem's hypothesis -/
